@@ -206,6 +206,16 @@ def check_catalog(ctx, mss):
     if o.ok and mss:
         if o.value.start_time != ms_to_dt(min(mss)) or o.value.end_time != ms_to_dt(max(mss)):
             ctx.violation("catalog_start_end_time_wrong", {"ms": [min(mss), max(mss)]}, {"k": "cat", "ms": [min(mss), max(mss)]})
+    # one forecast object whose times are reassigned: the epochs follow the current datetimes
+    f0 = call(lambda: CatalogForecast(catalogs=[CSEPCatalog(data=[])], n_cat=1, start_time=ms_to_dt(mss[0]), end_time=ms_to_dt(mss[0] + 1000)))
+    if f0.ok:
+        for ms in mss[:8]:
+            _ = f0.value.start_epoch, f0.value.end_epoch
+            f0.value.start_time = ms_to_dt(ms)
+            f0.value.end_time = ms_to_dt(ms + 86400000)
+            if f0.value.start_epoch != ms or f0.value.end_epoch != ms + 86400000:
+                ctx.violation("forecast_epoch_stale_after_time_reassigned", {"ms": ms, "got": [f0.value.start_epoch, f0.value.end_epoch]}, {"k": "cat", "ms": [mss[0], ms]})
+                break
     for ms in mss[:5]:
         f = call(lambda: CatalogForecast(catalogs=[CSEPCatalog(data=[])], n_cat=1, start_time=ms_to_dt(ms), end_time=ms_to_dt(ms + 86400000)))
         if not f.ok:
